@@ -78,7 +78,9 @@ func c07Year(w *W, y int) {
 	// ---- time.Time entry points: same acceptance and same fields as the integer constructors
 	for m := 1; m <= 12; m++ {
 		for _, d := range []int{1, 4, 5, 10, 14, 15, 28, 29, 30, 31} {
-			t := time.Date(y, time.Month(m), d, 23, 59, 59, 0, time.UTC)
+			// the sub-second part rotates through 0, half a second and the last nanosecond: the fields are those of the
+			// second that contains the instant
+			t := time.Date(y, time.Month(m), d, 23, 59, 59, []int{0, 500000000, 999999999}[(y+m+d)%3], time.UTC)
 			if t.Year() != y || int(t.Month()) != m || t.Day() != d {
 				continue // time.Time normalised the date (it does not exist in the proleptic Gregorian calendar)
 			}
@@ -93,8 +95,8 @@ func c07Year(w *W, y int) {
 				var l *calendar.Lunar
 				if msg, pl := try(func() { l = calendar.NewLunarFromDate(t) }); pl {
 					w.Viol(fmt.Sprintf("C07:NewLunarFromDate:panic:%04d-%02d-%02d", y, m, d), msg, []int{y, m, d})
-				} else if fieldDigest(l) != fieldDigest(s.GetLunar()) {
-					w.Viol(fmt.Sprintf("C07:NewLunarFromDate:%04d-%02d-%02d", y, m, d), "NewLunarFromDate differs from NewSolarFromDate(...).GetLunar()", []int{y, m, d})
+				} else if fieldDigest(l) != fieldDigest(calendar.NewSolar(y, m, d, 23, 59, 59).GetLunar()) {
+					w.Viol(fmt.Sprintf("C07:NewLunarFromDate:%04d-%02d-%02d", y, m, d), "NewLunarFromDate("+t.Format("2006-01-02 15:04:05.000000000")+") differs from NewSolar(same fields).GetLunar()", []int{y, m, d})
 				}
 				wk := calendar.NewSolarWeekFromDate(t, 1)
 				sm := calendar.NewSolarMonthFromDate(t)
